@@ -26,6 +26,8 @@ def cases(thorough):
     out.append(Case("RN-deut", {"reactions": [rx(["H", "D"], ["HD"]), rx(["HD", "H+"], ["D+", "H2"]), rx(["oH2", "D+"], ["pH2D+"]), rx(["N2", "D+"], ["N2D+"]), rx(["N", "N"], ["N2"])], "network": {"required_species": ["H+", "oH2"]}}))
     out.append(Case("RN-ice", {"reactions": [rx(["H", "CO"], ["#HCO"]), rx(["#H", "#CO"], ["#HCO"]), rx(["H"], ["#H"]), rx(["CO"], ["#CO"]), rx(["C", "O"], ["CO"]), rx(["#HCO"], ["H", "CO"])], "network": {}}))
     out.append(Case("RN-grain", {"reactions": [rx(["H", "H"], ["H2"]), rx(["GRAIN0", "e-"], ["GRAIN-"]), rx(["GRAIN-", "H+"], ["GRAIN0", "H"]), rx(["H", "CR"], ["H+", "e-"], t=101)], "network": {}}, tags={"grain"}))
+    # a molecule none of whose elements is present as an atomic species (O2 without O)
+    out.append(Case("RN-missing-atom", {"reactions": [rx(["H", "H"], ["H2"]), rx(["O2", "C"], ["CO", "O2"]), rx(["C", "H"], ["CH"])], "network": {}}))
     if thorough:
         out.append(Case("RN-SiS", {"reactions": [rx(["Si", "O"], ["SiO"]), rx(["S", "O"], ["SO"]), rx(["Si+", "e-"], ["Si"]), rx(["SiO", "H+"], ["Si+", "OH"]), rx(["O", "H"], ["OH"]), rx(["H", "H"], ["H2"]), rx(["Si", "CR"], ["Si+", "e-"], t=101), rx(["Mg", "H+"], ["Mg+", "H"]), rx(["Fe", "H+"], ["Fe+", "H"])], "network": {}}))
     return out
@@ -67,7 +69,17 @@ def _one(case, p, meta, tdir, res):
     L = H.Loaded(p, tdir, tus=["naunet_renorm.cpp", "naunet_physics.cpp", "naunet_constants.cpp"])
     if L.errors:
         tu, err = next(iter(L.errors.items()))
-        res["unknown"].append((f"{case.name}/{tdir}:compile", err[-200:]))
+        first = next((l for l in err.splitlines() if "error:" in l), err[:200])
+        if "naunet_renorm" in tu and "/vf/shim/" not in first and not any(w in first for w in ("undeclared identifier", "redefinition")):
+            m = __import__("re").search(r":(\d+):\d+: error", first)
+            line = ""
+            try:
+                line = open(__import__("os").path.join(p.tdir(tdir), "src", tu)).read().splitlines()[int(m.group(1)) - 1].strip()
+            except Exception:
+                pass
+            res["viol"].append({"key": f"{case.name}/{tdir}:renorm-invalid-c", "what": f"emitted renormalisation code is not valid C++: {first[-120:]} | {line[:120]}", "replay": {"case": case.name, "target": tdir, "stderr": err[-800:], "source_line": line, "spec": case.spec, "replay_note": "clang++-14 rejects the emitted naunet_renorm.cpp"}})
+        else:
+            res["unknown"].append((f"{case.name}/{tdir}:compile", first[-200:]))
         return
     M = L.M
     del DIVZERO_SEEN[:]
@@ -171,16 +183,25 @@ def _one(case, p, meta, tdir, res):
         if sp["is_electron"]:
             i = slots[sp["name"]]
             ask(f"{tag}:electron-untouched", R(abn[i]) != ab[i], "renormalisation rescales the electron abundance")
-    # (5) identity when the ratios already match: r = 1 solves A r = b_current and every factor is 1
+    # (5) identity when the ratios already match: r = 1 solves A r = b_current and every factor is 1.
+    # Only meaningful when every element of every molecule is itself renormalised (present as an atomic
+    # species): otherwise the mass weights of a molecule do not add up to its mass number by construction.
     one = [(rv, z3.RealVal(1)) for rv in r]
-    for e in range(NE):
-        be = z3.substitute(b[e], *one)
-        ask(f"{tag}:A*1=current-ratio[{e}]", be * Hold != R(elem_abund(ab, e)), "A(ab)*1 is not the current elemental ratio: renormalising an already matching state is not the identity")
     complete = all(all(en in [next(iter(x["element_count"])) for x in meta["elements"]] for en in sp["element_count"]) for sp in meta["species"] if not sp["is_electron"])
     if complete and not divz:
+        for e in range(NE):
+            be = z3.substitute(b[e], *one)
+            ask(f"{tag}:A*1=current-ratio[{e}]", be * Hold != R(elem_abund(ab, e)), "A(ab)*1 is not the current elemental ratio: renormalising an already matching state is not the identity")
         for sp in meta["species"]:
             i = slots[sp["name"]]
             ask(f"{tag}:identity[{sp['name']}]", z3.substitute(R(abn[i]), *one) != ab[i], f"with matching ratios (r=1) species {sp['name']} is rescaled")
+    else:
+        # species made only of non-renormalised elements must at least be left untouched
+        elnames = [next(iter(x["element_count"])) for x in meta["elements"]]
+        for sp in meta["species"]:
+            if not sp["is_electron"] and not any(en in elnames for en in sp["element_count"]):
+                i = slots[sp["name"]]
+                ask(f"{tag}:untouched[{sp['name']}]", R(abn[i]) != ab[i], f"species {sp['name']} shares no element with the renormalised ones but is rescaled")
     res["solver_s"] += time.time() - t0
 
 
